@@ -120,6 +120,18 @@ class AugmentedFlowProposal(FlowProposal):
 
         return x_prime, log_J
 
+    def inverse_rescale(self, x_prime, **kwargs):
+        """Inverse rescaling that keeps the augment parameters.
+
+        The augment parameters are not reparameterised, so they are copied
+        directly from the prime space. Without this they are left at their
+        default value (NaN) and the augmented prior is always NaN.
+        """
+        x, log_J = super().inverse_rescale(x_prime, **kwargs)
+        for an in self.augment_parameters:
+            x[an] = x_prime[an]
+        return x, log_J
+
     def augmented_prior(self, x):
         """
         Log Gaussian for augmented variables.
